@@ -223,6 +223,26 @@ func (w *sysWorld) settle() {
 	}
 }
 
+// quiesce: a short version of settle for the end of a case (3 quiet polls of 25 ms, at most 1 s)
+func (w *sysWorld) quiesce() {
+	last, same := -1, 0
+	for i := 0; i < 40 && same < 3; i++ {
+		time.Sleep(ms(25))
+		n := 0
+		for _, wc := range w.conns {
+			wc.mu.Lock()
+			n += len(wc.frames)
+			wc.mu.Unlock()
+		}
+		if n == last {
+			same++
+		} else {
+			same = 0
+		}
+		last = n
+	}
+}
+
 // obsAll drains every connection (in name order) after giving the server time to deliver.
 func (w *sysWorld) obsAll(names []string, wait time.Duration) string {
 	time.Sleep(wait)
